@@ -319,9 +319,37 @@ class RowFlow:
                     nid = self.cfg.node_of(n)
                     rs = RowStore(self.func, n, t, keys, v, kind, elem_expr=t.value, env=self.env, flow=self)
                     self._fill_guards(rs, nid, t.value)
+                    src = self._element_source(n, t.value)
+                    if src is not None:
+                        rs.elem_expr = src  # `row = rows[idx]` right before: the store goes to rows[idx]
                     out.append(rs)
         out.sort(key=lambda r: (r.node.lineno, r.node.col_offset))
         return out
+
+    def _element_source(self, stmt: ast.AST, elem: ast.AST) -> Optional[ast.Subscript]:
+        """``elem`` is a name bound by the nearest preceding statement of an enclosing block to ``<container>[idx]``"""
+        if not isinstance(elem, ast.Name):
+            return None
+        cur = stmt
+        while cur is not None and cur is not self.func.node:
+            par = getattr(cur, "_parent", None)
+            if par is None:
+                break
+            for fld in ("body", "orelse", "finalbody"):
+                lst = getattr(par, fld, None)
+                if isinstance(lst, list) and cur in lst:
+                    for prev in reversed(lst[: lst.index(cur)]):
+                        if isinstance(prev, ast.Assign) and len(prev.targets) == 1 and isinstance(prev.targets[0], ast.Name) and prev.targets[0].id == elem.id:
+                            v = prev.value
+                            if isinstance(v, ast.Subscript) and not isinstance(v.slice, ast.Slice) and self.is_container(v.value) is not None:
+                                return v
+                            return None
+                        if any(isinstance(x, ast.Name) and x.id == elem.id and isinstance(x.ctx, ast.Store) for x in ast.walk(prev)):
+                            return None
+            if isinstance(par, (ast.For, ast.While)) and any(isinstance(x, ast.Name) and x.id == elem.id for x in ast.walk(getattr(par, "target", ast.Pass()))):
+                return None
+            cur = par
+        return None
 
     def _fill_guards(self, rs: RowStore, nid: Optional[int], elem_expr: ast.AST) -> None:
         guards = self.cfg.guards(nid) if nid is not None else []
